@@ -296,6 +296,19 @@ func c04account(r *kernel.Run, seed uint64) {
 	totallyOrdered := true
 	written := 0
 	opNames := []string{"enq", "sent", "recv", "discard", "accept", "block", "unblock", "cr_on", "cr_off", "cr_reset", "join", "leave", "cred"}
+	// swarm-style workload mix: in a third of the runs the history concentrates on one kind of subject (groups joined
+	// and left again and again / the contact-request switch and seed), so that several events about ONE subject
+	// follow each other (an older event overriding a newer one only shows with three or more of them)
+	switch r.Choose(3) {
+	case 1:
+		opNames = []string{"join", "leave", "join", "leave", "enq", "block", "cred"}
+		mmGroups = mmGroups[:1+r.Choose(2)]
+		r.Probe("workload_mix_groups")
+	case 2:
+		opNames = []string{"cr_on", "cr_off", "cr_reset", "cr_on", "cr_off", "enq", "sent", "recv", "block", "unblock"}
+		contacts = contacts[:1]
+		r.Probe("workload_mix_switch_and_one_contact")
+	}
 
 	doOp := func(n *vnode) {
 		s.wait()
